@@ -52,6 +52,20 @@ Ack ==
   /\ CountersSane
   /\ UNCHANGED <<stuck, used>>
 
+(* a member leaves.  The property: an operation still unacknowledged by some node stays pending.  The node that  *)
+(* left may either keep its place in the accounting (what the code does) or be taken out of it together with its *)
+(* acknowledgement -- in both readings an operation that another node has not acknowledged is still pending, and  *)
+(* one that everybody else acknowledged may only stop being pending in the second reading                         *)
+Without(f, n) == [o \in DOMAIN f |-> f[o] \ {n}]
+Leave ==
+  /\ E.ev = "leave" /\ E.cls = "ok"
+  /\ \/ UNCHANGED <<sent, acked>>
+     \/ sent' = Without(sent, E.node) /\ acked' = Without(acked, E.node)
+  /\ Observed \ stuck = PendingRef(sent', acked') \ stuck
+  /\ stuck \subseteq Observed
+  /\ CountersSane
+  /\ UNCHANGED <<stuck, used>>
+
 (* known finding: the same (operation, node) registered twice while pending needs two   *)
 (* acknowledgements but only one can be counted: the operation stays pending for ever  *)
 Dev_DuplicateRegistration ==
@@ -64,7 +78,7 @@ Dev_DuplicateRegistration ==
   /\ Observed \ stuck' = PendingRef(sent', acked') \ stuck'
   /\ used' = used \cup {"Dev_DuplicateRegistration"}
 
-TraceNext == l <= Len(Rec) /\ l' = l + 1 /\ (Reset \/ Register \/ Ack \/ Dev_DuplicateRegistration)
+TraceNext == l <= Len(Rec) /\ l' = l + 1 /\ (Reset \/ Register \/ Ack \/ Leave \/ Dev_DuplicateRegistration)
 TraceSpec == TraceInit /\ [][TraceNext]_tvars
 
 Progress ==
